@@ -149,6 +149,9 @@ def scenario_lines(sc, subset, tag):
         elif ev[0] == "D":      # the bias is deleted in the middle of the run
             if ev[1] in subset:
                 L.append("script cv bias b%d delete" % ev[1])
+        elif ev[0] == "Z":      # the job ends: state saved (text or binary), new process-like instance, same configuration, state loaded
+            f = "c08_%s.state" % tag.replace(":", "_")
+            L += ["save %s %s" % (ev[1], f), "fresh", "forcecmd clear", "config EOF"] + config_text(sc, subset, scripted, reverse=(tag.split(":")[-1] == "P")) + ["EOF", "load %s" % f]
         elif ev[0] == "C" and not tag.split(":")[-1].startswith("N"):      # a configuration that is rejected (harmonic restraint without centers) in the middle of the session
             L += ["config EOF", "harmonic {", "  name rejected%d" % ev[1], "  colvars v0", "  forceConstant 2.0", "}", "EOF"]
     L.append("echo END %s" % tag)
@@ -195,6 +198,26 @@ def var_value(cs):
 
 # ------------------------------------------------------------------ scenario -> model case
 def model_case(sc, subset, fixed=FIXED, efix=EFIX):
+    """one RUN line; a scenario with a restart ("Z") is a list of segments joined by " @@ ": each segment is a fresh run of the
+    model whose first step is the step at which the state was saved (the restraints in this family carry no state)"""
+    if any(ev[0] == "Z" for ev in sc["events"]):
+        segs, cur, it, first = [], [], sc["it0"], True
+        starts = [sc["it0"]]
+        for ev in sc["events"]:
+            if ev[0] == "Z":
+                segs.append(cur); cur = []; starts.append(it); first = True
+            else:
+                cur.append(ev)
+                if ev[0] == "S":
+                    it = it if first else it + 1
+                if ev[0] in ("S", "R"):
+                    first = False
+        segs.append(cur)
+        lines = []
+        for st0, evs_ in zip(starts, segs):
+            sc2 = dict(sc); sc2["events"] = evs_; sc2["it0"] = st0
+            lines.append(model_case(sc2, subset, fixed, efix))
+        return " @@ ".join(lines)
     p = ["RUN", "1" if fixed else "0", "1" if efix else "0", str(sc["natoms"]), str(sc["it0"]), str(len(sc["vars"]))]
     p += [str(v["tsf"]) for v in sc["vars"]]
     p.append(str(len(subset)))
@@ -465,6 +488,11 @@ def spec_run(sc, subset):
             continue
         if ev[0] == "C":
             continue            # a rejected configuration changes nothing
+        if ev[0] == "Z":
+            first = True        # the new job repeats the step at which the state was saved
+            user = {j: True for j in subset}
+            uapply = {j: True for j in subset}
+            continue
         if ev[0] == "S":
             if not first:
                 it += 1
@@ -682,7 +710,7 @@ def oracle_spec(run, sc, tag, subset, isteps):
                           replay_of(sc, {tag: subset}, {"step_index": s}))
             return
         # evaluated only when contributing: a sleeping/disabled bias keeps the energy and forces of its last evaluation
-        if s > 0:
+        if s > 0 and s not in first_after_restart(sc):
             prevname = {bb["name"]: bb for bb in isteps[s - 1]["B"]}
             for q, j in enumerate(subset):
                 nm = "b%d" % j
@@ -694,6 +722,20 @@ def oracle_spec(run, sc, tag, subset, isteps):
                                       % (sc["id"], tag, s, im["it"], j, sc["biases"][j]["tsf"]),
                                       replay_of(sc, {tag: subset}, {"step_index": s, "bias": j}))
                         return
+
+
+def first_after_restart(sc):
+    """indices of the calc() calls that are the first of a new job (objects are new: nothing is kept from before)"""
+    out, c, z = set(), -1, False
+    for ev in sc["events"]:
+        if ev[0] == "Z":
+            z = True
+        elif ev[0] in ("S", "R"):
+            c += 1
+            if z:
+                out.add(c)
+                z = False
+    return out
 
 
 def user_enabled_at(sc, j, s):
@@ -1153,6 +1195,24 @@ def toggle_scenario(r, k):
     return sc
 
 
+def restart_scenario(r, k):
+    """the run is split in two jobs: state saved (text or binary), fresh instance with the same configuration, state loaded; the
+    first step of the second job is the step of the save, mostly NOT a multiple of the factors; stateless restraints only"""
+    sc = gen_scenario(r, k, "mix")
+    sc["family"] = "restart"
+    sc["perm_run"] = False
+    for b in sc["biases"]:
+        if b["kind"] in ("A", "G"):
+            b["kind"] = r.choice(["H", "L", "W"])
+            b["centers"] = [dy(r, -4, 4, 2) for _ in b["vars"]]
+    evs = [e for e in sc["events"] if e[0] in ("S", "R")]
+    cut = r.randint(2, max(2, len(evs) - 2))
+    # the new job starts from the saved configuration: its first calc() repeats the step and the positions of the save
+    rest = [("S", [list(p_) for p_ in evs[cut - 1][1]])] + evs[cut:]
+    sc["events"] = evs[:cut] + [("Z", r.choice(["text", "binary"]))] + rest
+    return sc
+
+
 def coupling_scenario(r, k):
     """lagged engine forces that include the Colvars forces, a one-atom distanceZ variable with subtractAppliedForce and
     outputTotalForce, two restraints: the total force reported at step t+1 must be the engine's own force of step t,
@@ -1233,8 +1293,9 @@ def run_batch(unit, model, scs, d):
             L += scenario_lines(sc, sub, tag)
             if all(sc["biases"][j]["kind"] not in ("F", "FA") for j in sub) and sc["family"] not in ("ext", "scripted", "vector") and t != "P" and not t.startswith("N") \
                and not any(ev[0] == "D" for ev in sc["events"]):
-                M.append(model_case(sc, sub))
-                keys.append(tag)
+                for q_, seg in enumerate(model_case(sc, sub).split(" @@ ")):
+                    M.append(seg)
+                    keys.append((tag, q_))
     for sc in scs:
         for j, b in enumerate(sc["biases"]):
             if b.get("grid"):
@@ -1247,8 +1308,8 @@ def run_batch(unit, model, scs, d):
     impl = parse_impl(out)
     rc2, mout, err2 = V.run_lines(model, M, timeout=1200)
     mod = {}
-    for kx, line in zip(keys, mout):
-        mod[kx] = line
+    for (kx, q_), line in zip(keys, mout):
+        mod[kx] = line if q_ == 0 else (mod[kx] + " ; " + line if mod[kx].strip() and line.strip() else mod[kx] + line)
     return impl, mod, (rc, err[-300:] if err else "")
 
 
@@ -1296,6 +1357,9 @@ def check(run):
         k += 1
     for _ in range(24 if quick else 600):
         scs.append(toggle_scenario(r, k))
+        k += 1
+    for _ in range(16 if quick else 400):
+        scs.append(restart_scenario(r, k))
         k += 1
     for _ in range(12 if quick else 300):
         scs.append(ext_scenario(r, k))
